@@ -47,7 +47,7 @@ ApplyBefore(n, e, sib) ==
 
 Apply(n, e) ==
     CASE e.ev = "create_element" ->
-            R(CreateElement(n, e.ns, e.local, AttrRecs(e.attrs), e.template), e.id = Len(n) /\ QNamesDistinct(e.attrs), {})
+            R(CreateElement(n, e.ns, e.local, AttrRecs(e.attrs), e.template), e.id = Len(n) /\ (QNamesDistinct(e.attrs) /\ AttrsDistinct(e.attrs)), {})
       [] e.ev = "create_comment" -> R(Create(n, MkNode("comment", "", <<>>, <<>>, e.text, <<>>)), e.id = Len(n), {})
       [] e.ev = "create_pi" -> R(Create(n, MkNode("pi", "", <<>>, <<>>, e.data, e.target)), e.id = Len(n), {})
       [] e.ev = "append" -> IF Known(n, e.parent) /\ (e.k = "text" \/ Known(n, e.child)) THEN ApplyChild(n, e, e.parent) ELSE R(n, FALSE, {})
@@ -64,7 +64,7 @@ Apply(n, e) ==
               PreReparent(n, e.node, e.new_parent), {e.node, e.new_parent})
       [] e.ev = "add_attrs_if_missing" ->
             R(IF IsEl(n, e.target) THEN AddAttrsIfMissing(n, e.target, AttrRecs(e.attrs)) ELSE n,
-              PreElemOnly(n, e.target) /\ QNamesDistinct(e.attrs), {e.target})
+              PreElemOnly(n, e.target) /\ (QNamesDistinct(e.attrs) /\ AttrsDistinct(e.attrs)), {e.target})
       [] e.ev = "get_template_contents" ->
             IF PreTemplateContents(n, e.target)
             THEN LET t == TemplateContents(n, e.target) IN R(t.nodes, t.ret = e.ret, {e.target})
